@@ -2,6 +2,9 @@
 #   P-cases  E2 programs (create/yield/usleep/interrupt/join + nthreads/released) on one vCPU:
 #            extracted C05_Model.coop_result == real photon trace, line by line
 #   A-cases  E3 schedules on the REAL photon::asymmetric_spinLock: extracted C05_Asym.asym_e3 == step log
+#   M-cases  E4 controlled multi-vCPU replay (harness/C05/e4_main.cpp includes the REAL thread/thread.cpp): command
+#            sequences (which vCPU does what) -> placement dump after every command; extracted C05_E4.cmd_labels run
+#            through C05_Model.step == real scheduler, verbatim; oracle on the implementation's dumps alone
 #   extra    hardware litmus for F5 (confirm only), multi-vCPU stress runs (search oracle)
 import re, stat, itertools
 from vlib import *
@@ -56,6 +59,98 @@ def asym_occupancy(log):
     return None
 
 
+
+# ---------------------------------------------------------------- E4 (M-cases): parsing + the property on the dumps
+M_STRIP = re.compile(r'\{[^}]*\} ?')
+V_RE = re.compile(r'V(\d+)\[r=(\S+) q=(\S+) b=(\S+) n=(\d+)\]')
+T_RE = re.compile(r'^T(\d+)=([YRSBD?])(-?\d+)?(z)?(w(?:\d+|\?))?(e-?\d+)?(c(\d)(\d)(-?\d))?$')
+
+
+def m_parse_case(case):
+    secs = case.split('|')
+    head = secs[0].split()
+    nv = int(head[1]); flags = head[2].split(',')
+    progs = []
+    for sec in secs[1:-1]:
+        t = sec.strip(); ops = []
+        if t and t != '-':
+            for part in t.split(';'):
+                f = part.split()
+                if f: ops.append((f[0], [int(x) for x in f[1:]]))
+        progs.append(ops)
+    return nv, flags, progs, secs[-1].split()
+
+
+def m_fmt_case(nv, flags, progs, cmds):
+    return 'M %d %s | %s | %s' % (nv, ','.join(flags), ' | '.join(';'.join(('%s %s' % (o, ' '.join(map(str, a)))) if a else o for o, a in p) if p else '-' for p in progs), ' '.join(cmds))
+
+
+def m_parse_dump(toks):
+    """tokens of one dump -> (vcpus {v: (runq, sleepq, standby, n)}, threads {k: dict}, notes)"""
+    vc = {}; th = {}; notes = []
+    def lst(x): return [] if x == '-' else x.split(',')
+    text = ' '.join(toks)
+    for m in V_RE.finditer(text):
+        vc[int(m.group(1))] = (lst(m.group(2)), lst(m.group(3)), lst(m.group(4)), int(m.group(5)))
+    for t in V_RE.sub('', text).split():
+        if t.startswith('!'): notes.append(t[1:]); continue
+        m = T_RE.match(t)
+        if m:
+            th[int(m.group(1))] = dict(st=m.group(2), vcpu=int(m.group(3)) if m.group(3) is not None else None, z=bool(m.group(4)),
+                                       w=m.group(5), e=m.group(6), started=int(m.group(8)) if m.group(7) else None,
+                                       returned=int(m.group(9)) if m.group(7) else None, released=int(m.group(10)) if m.group(7) else None)
+            continue
+        return None
+    return vc, th, notes
+
+
+def m_check_dump(nv, n, vc, th, notes):
+    """placement_unique / one_vcpu_at_a_time / nthreads on ONE dump of the implementation"""
+    if notes:
+        if any(x.startswith('WRONGCPU') for x in notes):
+            return 'a photon thread was executed by the OS thread of a vCPU it does not belong to (%s)' % ' '.join(notes)
+        return 'inconsistent scheduler internals: ' + ' '.join(notes)
+    if sorted(vc) != list(range(nv)): return 'dump does not list every vCPU'
+    for v in range(nv):
+        r, q, b, cnt = vc[v]
+        for name, l in (('run queue', r), ('sleep queue', q), ('standby queue', b)):
+            if '?' in l: return 'the %s of vCPU %d holds a thread that does not exist (any more)' % (name, v)
+            if len(set(l)) != len(l): return 'a thread is twice in the %s of vCPU %d' % (name, v)
+        if not r or str(n + v) not in r: return 'the idler of vCPU %d is not in its run queue' % v
+    for k, t in sorted(th.items()):
+        occ = {v: (vc[v][0].count(str(k)), vc[v][1].count(str(k)), vc[v][2].count(str(k))) for v in range(nv)}
+        if t['st'] == '?': return 'thread %d is in an unknown state' % k
+        if t['st'] == 'D':
+            for v in range(nv):
+                if occ[v] != (0, 0, 0): return 'finished thread %d is still in a queue of vCPU %d' % (k, v)
+            continue
+        own = t['vcpu']
+        if own is None or not (0 <= own < nv): return 'live thread %d belongs to no vCPU' % k
+        for v in range(nv):
+            if v != own and occ[v] != (0, 0, 0):
+                where = ['run', 'sleep', 'standby'][[i for i in range(3) if occ[v][i]][0]]
+                return 'thread %d belongs to vCPU %d but is in the %s queue of vCPU %d' % (k, own, where, v)
+        o = occ[own]
+        if t['z'] != (o[1] == 1): return 'thread %d: idx says %sin a sleep queue, the sleep queue of vCPU %d says otherwise' % (k, '' if t['z'] else 'not ', own)
+        if t['st'] in 'YR':
+            ok = o == (1, 0, 0)
+        elif t['st'] == 'S':
+            ok = o == (0, 1, 0)
+        else:   # STANDBY: standby queue (+ sleep queue: the documented overlap), or - stolen from a standby queue - a run queue
+            ok = o in ((0, 1, 1), (0, 0, 1), (1, 0, 0))
+        if not ok: return 'thread %d (state %s) occurs (run,sleep,standby) = %s times in the queues of its vCPU %d' % (k, t['st'], o, own)
+        if t['st'] == 'R' and vc[own][0][0] != str(k): return 'thread %d is RUNNING but not the CURRENT thread of vCPU %d' % (k, own)
+    for v in range(nv):
+        r, q, b, cnt = vc[v]
+        for x in r + q + b:
+            if int(x) not in th or th[int(x)]['st'] == 'D': return 'vCPU %d queues thread %s, which is not live' % (v, x)
+        cur = int(r[0])
+        if th[cur]['st'] != 'R': return 'the CURRENT thread %d of vCPU %d is not RUNNING' % (cur, v)
+        live = sum(1 for k, t in th.items() if t['st'] != 'D' and t['vcpu'] == v)
+        if live != cnt: return 'nthreads of vCPU %d = %d, but %d live threads are placed on it' % (v, cnt, live)
+    return None
+
+
 class Check(DiffCheck):
     id = 'C05'
     # lockset engine (lib/lockset.py): die/standby/dequeue blocks happen under the locks the life-cycle model assumes
@@ -86,18 +181,19 @@ class Check(DiffCheck):
             'a3': (['harness/C05/asym_e3.cpp'], '-I%s' % REPO, 'C05_asym'),
             'litmus': (['harness/C05/litmus.cpp'], '-O2 -I%s' % REPO, 'C05_litmus'),
             'stress': (['harness/C05/stress.cpp'], '-O2', 'C05_stress'),
+            'e4': (['harness/C05/e4_main.cpp'], '-I%s' % REPO, 'C05_e4'),
         }
         photon_lib()                                    # build the hook-enabled library once, before the parallel compiles
         res = {}
-        with cf.ThreadPoolExecutor(max_workers=4) as ex:
+        with cf.ThreadPoolExecutor(max_workers=5) as ex:
             futs = {k: ex.submit(cxx_build, self.id, src, extra, False, True, os.path.join(BUILD, 'bin', out)) for k, (src, extra, out) in jobs.items()}
             for k, f in futs.items():
                 exe, log = f.result()
                 if not exe: raise RuntimeError('%s: %s' % (k, log[-3000:]))
                 res[k] = exe
-        e2, a3 = res['e2'], res['a3']
+        e2, a3, e4 = res['e2'], res['a3'], res['e4']
         self.litmus, self.stress = res['litmus'], res['stress']
-        # dispatcher: P lines -> E2 harness, A lines -> E3 harness; one output line per input line, in order
+        # dispatcher: P lines -> E2 harness, A lines -> E3 harness, M lines -> E4 harness; one output line per input line, in order
         wrap = os.path.join(BUILD, 'bin', 'C05_impl')
         with open(wrap, 'w') as f:
             f.write('''#!/usr/bin/env python3
@@ -108,7 +204,7 @@ while i < len(lines):
     tag = lines[i][0]
     j = i
     while j < len(lines) and lines[j][0] == tag: j += 1
-    exe = %r if tag == 'P' else %r
+    exe = {'P': %r, 'A': %r, 'M': %r}.get(tag, %r)
     fn = sys.argv[1] + '.%%d.part' %% i
     open(fn, 'w').write('\\n'.join(lines[i:j]) + '\\n')
     p = subprocess.run([exe, fn], stdout=subprocess.PIPE, stderr=subprocess.PIPE, universal_newlines=True, errors='replace')
@@ -116,10 +212,10 @@ while i < len(lines):
     for k in range(j - i):
         # a HANG of the E2 child is a real-time event (20 s without output on a loaded machine): such a case is run again,
         # alone and with a 10x limit, before it is believed
-        if tag == 'P' and k < len(out) and 'HANG' in out[k][:40]:
+        if tag in 'PM' and k < len(out) and 'HANG' in out[k][:40]:
             one = sys.argv[1] + '.%%d.retry' %% (i + k)
             open(one, 'w').write(lines[i + k] + '\\n')
-            env2 = dict(os.environ); env2['E2_TIMEOUT_MS'] = '200000'
+            env2 = dict(os.environ); env2['E2_TIMEOUT_MS'] = '200000'; env2['E4_TIMEOUT_MS'] = '900000'; env2['E4_STEP_TIMEOUT_S'] = '600'
             for attempt in range(2):
                 q = subprocess.run([exe, one], stdout=subprocess.PIPE, stderr=subprocess.PIPE, universal_newlines=True, errors='replace', env=env2)
                 o2 = q.stdout.strip().split('\\n')[0] if q.stdout.strip() else out[k]
@@ -141,13 +237,14 @@ while i < len(lines):
         else: print('CRASH(skipped)')
     sys.stdout.flush()
     i = j
-''' % (e2, a3))
+''' % (e2, a3, e4, a3))
         os.chmod(wrap, os.stat(wrap).st_mode | stat.S_IXUSR | stat.S_IXGRP | stat.S_IXOTH)
         return wrap
 
     def impl_env(self):
         e = DiffCheck.impl_env(self)
         e['E2_TIMEOUT_MS'] = '20000'
+        e['E4_TIMEOUT_MS'] = '120000'
         return e
 
     # ---------------------------------------------------------------- cases
@@ -230,7 +327,121 @@ while i < len(lines):
         nprog = 500 if tier == 'quick' else 12000
         cand = [self._rand_prog(rng) for _ in range(nprog)]
         cs += self._drop_ties(cand)
+        # --- M: E4 controlled multi-vCPU replay
+        cs += self._gen_e4(tier, rng)
         return list(dict.fromkeys(cs))
+
+    # ---------------------------------------------------------------- E4 generator
+    E4_TEMPLATES = [
+        # (name, header, programs, set-up commands).  vCPU 0 = victim (passive), vCPU 1 = thief (active) unless said otherwise
+        # A: a stealable migrated thread (T3) and a cross-vCPU-interrupted sleeper (T2) meet in vCPU 0's standby queue
+        ('standby-MS', 'M 2 p,a', ['create 2 1 1;usleep 100000', 'create 3 0 1;yield;interrupt 2 4', 'usleep 50000;nop', 'migrate 3 0;nop'], 's0 s0 s0 s0 s1 s1 s1'),
+        # B: the same two in the other order (interrupt first, then the migration)
+        ('standby-SM', 'M 2 p,a', ['create 2 1 1;usleep 100000', 'create 3 0 1;interrupt 2 4;yield', 'usleep 50000;nop', 'migrate 3 0;nop'], 's0 s0 s0 s0 s1'),
+        # C: two stealable threads that yield in vCPU 0's run queue, one non-stealable; thief idle
+        ('runq', 'M 2 p,a', ['create 2 1 1;create 3 0 1;create 4 1 0;yield;yield;join 2;nthreads', 'nthreads', 'yield;yield;nthreads', 'yield;usleep 10;nop', 'yield;yield'], 's0 s0 s0'),
+        # D: both vCPUs steal and are stolen from; threads migrate back and forth; cross-vCPU join
+        ('pingpong', 'M 2 ap,ap', ['create 2 1 1;create 3 1 1;usleep 30;join 2', 'join 3;nthreads', 'migrate 2 1;yield;migrate 2 0;yield', 'yield;migrate 3 1;usleep 7;yield'], 's0 s0'),
+        # E: sleepers with deadlines + ticks: expiry (LResume) against cross-vCPU interrupts of the same sleepers
+        ('expiry', 'M 2 p,a', ['create 2 1 1;create 3 0 1;usleep 40;interrupt 3 7', 'usleep 15;interrupt 2 4;interrupt 3 11;yield', 'usleep 20;yield;usleep 5', 'usleep 60;nop'], 's0 s0 s0 a0 a0 a0 a0'),
+        # F: three vCPUs, two thieves around one victim; migrate of another thread (READY) by its creator
+        ('three', 'M 3 p,a,ap', ['create 3 1 1;create 4 0 1;migrate 4 2;yield;join 3', 'yield;interrupt 3 4', 'interrupt 4 4;usleep 9', 'usleep 25;yield;nop', 'yield;usleep 3;yield'], 's0 s0'),
+        # G: dying threads, non-joinable and joinable, stolen before they ever ran; join from the other vCPU
+        ('die', 'M 2 p,a', ['create 2 1 1;create 3 0 1;usleep 10;released 2;released 3', 'usleep 1;join 2;released 2;nthreads', 'nop', '-'], 's0 s0'),
+    ]
+
+    def _gen_e4(self, tier, rng):
+        cand = []
+        quick = tier == 'quick'
+        for name, head, progs, setup in self.E4_TEMPLATES:
+            nv = int(head.split()[1])
+            base = '%s | %s | %s' % (head, ' | '.join(progs), setup)
+            self._e4_cat = getattr(self, '_e4_cat', {})
+            # (1) every interleaving of vCPU turns under the library idler's own policy (`a<v>`)
+            La = (7 if nv == 2 else 5) if quick else (11 if nv == 2 else 7)
+            for w in itertools.product(range(nv), repeat=La):
+                c = base + ' ' + ' '.join('a%d' % v for v in w)
+                cand.append(c); self._e4_cat[c] = 'M:%s:turns' % name
+            # (2) every short word over the fine-grained commands after a random `a` prefix that reaches deeper states
+            alpha = ['%s%d' % (k, v) for k in 'srwy' for v in range(nv)] + ['t25']
+            Lf = 2 if quick else 3
+            for _ in range(3 if quick else 8):
+                pre = ' '.join('a%d' % rng.randrange(nv) for _ in range(rng.randrange(0, 9)))
+                for w in itertools.product(alpha, repeat=Lf):
+                    c = (base + ' ' + pre).rstrip() + ' ' + ' '.join(w) + ' ' + ' '.join('a%d' % rng.randrange(nv) for _ in range(4))
+                    cand.append(c); self._e4_cat[c] = 'M:%s:fine' % name
+        for _ in range(700 if quick else 12000):
+            c = self._rand_e4(rng)
+            cand.append(c); self._e4_cat[c] = 'M:random:nv=%s' % c.split()[1]
+        cp = [l.strip() for l in open(os.path.join(VERIF, 'replay', 'corpus', 'C05.cases')) if l.startswith('M ')] if os.path.exists(os.path.join(VERIF, 'replay', 'corpus', 'C05.cases')) else []
+        return self._e4_filter(list(dict.fromkeys(cp + cand)))
+
+    def _rand_e4(self, rng):
+        nv = rng.choice([2, 2, 2, 3])
+        nu = rng.randrange(2, 5)
+        n = nv + nu
+        flags = [rng.choice(['p', 'a', 'ap', 'ap', '-']) for _ in range(nv)]
+        if not any('p' in f for f in flags): flags[rng.randrange(nv)] = 'p'
+        if not any('a' in f for f in flags): flags[rng.randrange(nv)] += 'a'
+        flags = [f.replace('-a', 'a') for f in flags]
+        used = set()
+        def dur():
+            for _ in range(50):
+                d = rng.choice([1, 2, 3, 5, 7]) * rng.choice([1, 10, 100]) + rng.randrange(0, 3)
+                if d not in used: used.add(d); return d
+            return rng.randrange(1000, 100000)
+        progs = [[] for _ in range(n)]
+        joinable = {k: rng.random() < 0.5 for k in range(nv, n)}
+        ws = {k: rng.random() < 0.75 for k in range(nv, n)}
+        for k in range(n):
+            body = []
+            for _ in range(rng.randrange(1, 6)):
+                r = rng.random()
+                if r < 0.22: body.append('usleep %d' % dur())
+                elif r < 0.42: body.append('yield')
+                elif r < 0.56: body.append('interrupt %d %d' % (rng.randrange(0, n), rng.choice([4, 7, 11])))
+                elif r < 0.66: body.append('join %d' % rng.randrange(nv, n))
+                elif r < 0.86: body.append('migrate %d %d' % ((k if (k >= nv and rng.random() < 0.6) else rng.randrange(nv, n)), rng.randrange(nv)))
+                elif r < 0.92: body.append('nthreads')
+                elif r < 0.97: body.append('released %d' % rng.randrange(nv, n))
+                else: body.append('usleep 0')
+            progs[k] = body
+        for k in range(nv, n):                      # creator: mostly a main thread, early
+            cr = rng.randrange(nv) if rng.random() < 0.8 else rng.randrange(n)
+            pos = 0 if rng.random() < 0.7 else rng.randrange(0, len(progs[cr]) + 1)
+            progs[cr].insert(pos, 'create %d %d %d' % (k, 1 if joinable[k] else 0, 1 if ws[k] else 0))
+        cmds = []
+        for _ in range(rng.randrange(8, 45)):
+            r = rng.random(); v = rng.randrange(nv)
+            if r < 0.50: cmds.append('a%d' % v)
+            elif r < 0.70: cmds.append('s%d' % v)
+            elif r < 0.78: cmds.append('r%d' % v)
+            elif r < 0.89: cmds.append('w%d' % v)
+            elif r < 0.94: cmds.append('y%d' % v)
+            else: cmds.append('t%d' % rng.choice([1, 5, 10, 30, 100, 1000]))
+            if rng.random() < 0.3: cmds += [cmds[-1][0] + str(v)] * rng.randrange(1, 4) if cmds[-1][0] in 'as' else []
+        return 'M %d %s | %s | %s' % (nv, ','.join(flags), ' | '.join(';'.join(b) if b else '-' for b in progs), ' '.join(cmds))
+
+    def _e4_model(self, cases):
+        exe = os.path.join(BUILD, 'bin', 'C05_model')
+        if not os.path.exists(exe) or not cases: return [None] * len(cases)
+        return run_cases(exe, cases, os.path.join(BUILD, 'run', 'C05_%d' % os.getpid()), 'e4filter', timeout=600)
+
+    def _e4_filter(self, cand):
+        """Cases outside the replayable domain are recognised BY THE MODEL and not used: TIE (two equal finite deadlines in one
+        sleep queue: the wake order is C04's subject) and F23RUN (two vCPUs on one stack: the manifestation of known finding F23 —
+        the real run is undefined behaviour, confirmed separately by stress mode Y).  Cases in the CLASS of F23 (a steal inside
+        the victim's yield window) that stay harmless are kept and remembered for known_class."""
+        out = self._e4_model(cand)
+        self._f23 = getattr(self, '_f23', {})
+        keep = []
+        for c, o in zip(cand, out):
+            if o is None: keep.append(c); continue
+            pre = o[:40]
+            if 'TIE ' in pre or '{F23RUN}' in pre: continue
+            self._f23[c] = '{F23CLASS}' in pre
+            keep.append(c)
+        return keep
 
     def _drop_ties(self, cand):
         """the model keeps the sleep queue sorted; equal finite deadlines (order decided by the C04 heap) are outside
@@ -241,6 +452,11 @@ while i < len(lines):
         return [c for c, o in zip(cand, out) if o is not None and not o.startswith('TIE') and 'TIE ' not in o[:12]]
 
     def nontrivial(self, case):
+        if case[0] == 'M':
+            nv, flags, progs, cmds = m_parse_case(case)
+            ops = [o for p in progs for o in p]
+            cross = any(o[0] == 'migrate' for o in ops) or (any(o[0] == 'create' and len(o[1]) > 2 and o[1][2] for o in ops) and any(c[0] in 'wa' for c in cmds))
+            return nv >= 2 and cross and len({c[1:] for c in cmds if c[0] != 't'}) >= 2
         if case[0] == 'A':
             f = case.split(' ')
             s = f[4] if len(f) > 4 else ''
@@ -252,16 +468,30 @@ while i < len(lines):
         return created and others and fate
 
     def category(self, case):
+        if case[0] == 'M': return getattr(self, '_e4_cat', {}).get(case, 'M:other')
         if case[0] == 'A': return 'A:n=%s' % case.split(' ')[1]
         progs = parse_prog(case)
         ops = [o[0] for p in progs for o in p]
         return 'P:threads=%d%s%s' % (len(progs), ':join' if 'join' in ops else '', ':intr' if 'interrupt' in ops else '')
 
     def canon(self, line):
-        return line.strip()
+        line = line.strip()
+        if ' ;; ' in line or line.startswith(('init ', 'STUCK ', 'TIE ', '{F23')):
+            line = M_STRIP.sub('', line)               # the model's label lists / class markers are annotations
+        return line
+
+    def known_class(self, case):
+        if case[0] != 'M': return None
+        f = getattr(self, '_f23', {})
+        if case not in f:
+            o = self._e4_model([case])[0]
+            f[case] = bool(o) and '{F23CLASS}' in o[:40]
+            self._f23 = f
+        return 'F23' if f[case] else None
 
     # ---------------------------------------------------------------- the property on the implementation's output
     def oracle(self, case, out):
+        if case[0] == 'M': return self._oracle_e4(case, out)
         if case[0] == 'A': return self._oracle_asym(case, out)
         return self._oracle_prog(case, out)
 
@@ -271,6 +501,93 @@ while i < len(lines):
         if not m: return 'unparsable output: %r' % out[:200]
         log = m.group(4).split(' ') if m.group(4) else []
         return asym_occupancy(log)
+
+    def _oracle_e4(self, case, out):
+        """the property on the implementation's placement dumps, independent of the model"""
+        if out.startswith(('CRASH', 'HANG', 'NONDET', 'NOOUTPUT', 'INITFAIL', 'PIPEFAIL')):
+            return 'implementation run failed: ' + out[:300]
+        if out.startswith('BADCASE'): return None
+        nv, flags, progs, cmds = m_parse_case(case)
+        n = len(progs)
+        segs = out.split(' ;; ')
+        if len(segs) != len(cmds) + 1: return 'unparsable output (%d segments for %d commands): %r' % (len(segs), len(cmds), out[:200])
+        attr = {}                                   # k -> (joinable, ws) from the program text
+        for p in progs:
+            for o, a in p:
+                if o == 'create' and a and a[0] not in attr: attr[a[0]] = (len(a) > 1 and a[1] != 0, len(a) > 2 and a[2] != 0)
+        nextpc = [0] * n
+        joined = set()
+        prev = None
+        for i, seg in enumerate(segs):
+            toks = seg.split()
+            where = 'after `%s`: ' % ' '.join(cmds[:i]) if i else 'initially: '
+            if i == 0:
+                if toks[0] != 'init': return 'unparsable output: %r' % seg[:100]
+                evs = '-'; dtoks = toks[1:]; cmd = ''
+            else:
+                if toks[0] != cmds[i - 1] or not toks[1].startswith('ev='): return 'unparsable output: %r' % seg[:100]
+                cmd = toks[0]; evs = toks[1][3:]; dtoks = toks[2:]
+            d = m_parse_dump(dtoks)
+            if d is None: return 'unparsable dump: %r' % seg[:200]
+            vc, th, notes = d
+            msg = m_check_dump(nv, n, vc, th, notes)
+            if msg: return where + msg
+            # ---- events: every op once and in order; join exact; counters
+            if evs != '-':
+                for e in evs.split(','):
+                    mm = re.match(r'^(\d+)\.(\d+):(-?\d+)/(-?\d+)@(\d+)$', e)
+                    if not mm: return 'unparsable event %r' % e
+                    t, pc, ret, err, now = (int(x) for x in mm.groups())
+                    if not (0 <= t < n) or t not in th: return where + 'an op of thread %d ran, which was never created' % t
+                    if pc != nextpc[t] or pc >= len(progs[t]):
+                        return where + 'thread %d executed op %d, expected op %d: its entry function did not run exactly once in order' % (t, pc, nextpc[t])
+                    nextpc[t] += 1
+                    name, args = progs[t][pc]
+                    if name == 'join' and ret != -2:
+                        k = args[0]
+                        if k not in attr or not attr[k][0]: return where + 'join %d returned %d for a thread that is not joinable' % (k, ret)
+                        if k in joined: return where + 'thread_join(%d) returned twice' % k
+                        if nextpc[k] < len(progs[k]) or k not in th or th[k]['returned'] != 1:
+                            return where + 'thread_join(%d) returned before the entry function of %d returned' % (k, k)
+                        if ret != 1000 + k: return where + 'thread_join(%d) returned %d, the entry function returned %d' % (k, ret, 1000 + k)
+                        joined.add(k)
+                    elif name == 'nthreads':
+                        if th[t]['vcpu'] is not None and ret != vc[th[t]['vcpu']][3]:
+                            return where + 'nthreads = %d on vCPU %d whose counter is %d' % (ret, th[t]['vcpu'], vc[th[t]['vcpu']][3])
+                    elif name == 'released' and ret != -2:
+                        k = args[0]
+                        if k in th and th[k]['released'] != ret: return where + 'released %d = %d, the allocator says %d' % (k, ret, th[k]['released'])
+            for k, t in th.items():
+                if t['started'] is None: continue
+                jn = attr.get(k, (False, False))[0]
+                if t['started'] > 1: return where + 'the entry function of thread %d was started %d times' % (k, t['started'])
+                if t['returned'] > t['started']: return where + 'the entry function of thread %d returned %d times, started %d' % (k, t['returned'], t['started'])
+                if t['released'] not in (0, 1): return where + 'the stack of thread %d was released %d times' % (k, t['released'])
+                if (t['st'] == 'D') != (t['returned'] == 1): return where + 'thread %d: state %s but its entry function returned %d times' % (k, t['st'], t['returned'])
+                if jn and (t['released'] == 1) != (k in joined):
+                    return where + 'joinable thread %d: stack released %d times, thread_join has%s returned' % (k, t['released'], '' if k in joined else ' not')
+                if not jn and t['released'] != t['returned']:
+                    return where + 'non-joinable thread %d: entry function returned %d times, stack released %d times' % (k, t['returned'], t['released'])
+            # ---- transitions: never lost, never resurrected; a thread that changes vCPU was in no sleep queue; steal rules
+            if prev is not None:
+                pvc, pth = prev
+                for k, t in pth.items():
+                    if k not in th: return where + 'thread %d disappeared' % k
+                    u = th[k]
+                    if t['st'] == 'D' and u['st'] != 'D': return where + 'finished thread %d is live again (state %s)' % (k, u['st'])
+                    if t['started'] is not None and (u['started'] < t['started'] or u['returned'] < t['returned'] or u['released'] < t['released']):
+                        return where + 'counters of thread %d went backwards' % k
+                    if t['st'] != 'D' and u['st'] != 'D' and t['vcpu'] != u['vcpu']:
+                        a, b = t['vcpu'], u['vcpu']
+                        if t['z']: return where + 'thread %d moved from vCPU %d to vCPU %d while it was still in the sleep queue of vCPU %d' % (k, a, b, a)
+                        if cmd[0] == 'w':
+                            if b != int(cmd[1:]): return where + 'a steal scan of vCPU %s moved thread %d to vCPU %d' % (cmd[1:], k, b)
+                            if not attr.get(k, (False, False))[1]: return where + 'thread %d was stolen although it does not allow work stealing' % k
+                            if t['st'] == 'R': return where + 'RUNNING thread %d was stolen from vCPU %d' % (k, a)
+                            if 'p' not in flags[a]: return where + 'thread %d was stolen from vCPU %d, which is not passive' % (k, a)
+                            if 'a' not in flags[b]: return where + 'vCPU %d stole thread %d although it is not active' % (b, k)
+            prev = (vc, th)
+        return None
 
     def _oracle_prog(self, case, out):
         if out.startswith(('CRASH', 'HANG', 'NONDET', 'NOOUTPUT', 'IDLE-LIMIT', 'TRACE-LIMIT', 'INITFAIL')):
@@ -339,6 +656,16 @@ while i < len(lines):
         return None
 
     def neighbours(self, case, rng):
+        if case[0] == 'M':
+            nv, flags, progs, cmds = m_parse_case(case)
+            out = []
+            for i in range(len(cmds)):
+                out.append(m_fmt_case(nv, flags, progs, cmds[:i] + cmds[i + 1:]))
+            for k in range(len(progs)):
+                for i in range(len(progs[k])):
+                    q = [list(p) for p in progs]; del q[k][i]
+                    out.append(m_fmt_case(nv, flags, q, cmds))
+            return out[:200]
         if case[0] != 'P': return []
         progs = parse_prog(case)
         out = []
